@@ -120,6 +120,19 @@ func (t *Tap) Last(sid, kind, str string) (Event, bool) {
 	return Event{}, false
 }
 
+// Dump renders the last n events (all sessions) for a violation message.
+func (t *Tap) Dump(n int) string {
+	evs := t.Events()
+	if len(evs) > n {
+		evs = evs[len(evs)-n:]
+	}
+	var b strings.Builder
+	for _, e := range evs {
+		fmt.Fprintf(&b, "\n    g%d %s", e.Gid, e.String())
+	}
+	return b.String()
+}
+
 func (t *Tap) Now() time.Duration { return time.Since(t.start) }
 
 // Req records one HTTP exchange as seen by the wrapping handler.
